@@ -167,10 +167,14 @@ def fromStr (prof : Profile) (lit : List Nat) : Outcome (Except ParseErr Dec) :=
         | none => .ok (.error .overflow)
         | some c => .ok (.ok ⟨c, 0⟩)
 
-/-- the sign fix-up of `Dec!`: `"- "` / `"+ "` prefix loses its blank -/
+/-- ASCII white space: what `TokenStream::to_string` may put between a sign and the number that follows it — a blank, or a line
+    break in front of a long literal (`str::trim_start` removes it; non-ASCII white space never occurs in that text) -/
+def isAsciiWs (c : Nat) : Bool := c == 32 || c == 9 || c == 10 || c == 11 || c == 12 || c == 13
+
+/-- the sign fix-up of `Dec!` (after the D15 repair): white space directly after a leading `-` / `+` is removed -/
 def macroStripBlank : List Nat → List Nat
-  | 45 :: 32 :: rest => 45 :: rest
-  | 43 :: 32 :: rest => 43 :: rest
+  | 45 :: rest => 45 :: rest.dropWhile isAsciiWs
+  | 43 :: rest => 43 :: rest.dropWhile isAsciiWs
   | s => s
 
 /-- folding part of `Dec!` after `TokenStream::to_string`; an error means "does not compile" -/
